@@ -14,7 +14,7 @@ MAP = [
     (r"optimizations/(safe_math|string_errors|short_revert)", ["C09"]),
     (r"optimizations/(constant_variables|immutable_variables|memory_to_calldata|sstore)", ["C08"]),
     (r"vulnerabilities/(unsafe_erc20|divide_before|floating_pragma|unprotected_selfdestruct)", ["C07"]),
-    (r"/mod\.rs", ["C03", "C16"]),
+    (r"/mod\.rs", ["C03", "C16", "C02", "C14", "C15"]),
     (r"report/", ["C11", "C12", "C13"]),
     (r"opts\.rs", ["C14", "C18"]),
 ]
@@ -26,15 +26,18 @@ def sh(cmd, cwd=None, env=None, timeout=3600):
 
 
 def main():
-    wt = os.environ.get("VP_RUN_REPO") or (sys.argv[1] if len(sys.argv) > 1 else None)
+    wt = os.environ.get("VP_RUN_REPO") or (sys.argv[1] if len(sys.argv) > 1 and sys.argv[1] else None)
     if not wt:
         wt = "/tmp/sweep_wt_h"
         sh("git -C /repo worktree remove --force %s" % wt)
         sh("git -C /repo worktree add -f %s HEAD" % wt)
     env = dict(os.environ, VX_REPO=wt)
     res = []
+    filt = sys.argv[2] if len(sys.argv) > 2 else ""
     for d in sorted(glob.glob(os.path.join(HERE, "harmless", "H*"))):
         hid = os.path.basename(d)
+        if filt not in hid:
+            continue
         sh("git checkout -q -- . && git clean -fdq -e target", cwd=wt)
         rc, out = sh("git apply %s" % os.path.join(d, "patch.diff"), cwd=wt)
         if rc != 0:
